@@ -243,6 +243,52 @@ fn run_case(line: &str) -> String {
                 bb_bits(&out)
             })
         }
+        "assign" => {
+            // in-place `&=` / `|=` / `^=` on BooleanBuffer (bitwise_bin_op_assign):
+            // C19 assign <op> <uniq> <l> <lo> <r> <ro> <len>
+            let (op, uniq, l, lo, r, ro, len) = (t[2], t[3] == "1", unhex(t[4]), us(t[5]), unhex(t[6]), us(t[7]), us(t[8]));
+            guarded(move || {
+                // a uniquely owned, zero-pointer-offset buffer takes the in-place arm; a live
+                // clone forces the copying arm
+                let mut x = BooleanBuffer::new(Buffer::from_vec(l.clone()), lo, len);
+                let keep = if uniq { None } else { Some(x.clone()) };
+                let y = bb(&r, ro, len, (lo + ro) % 8);
+                match op {
+                    "and" => x &= &y,
+                    "or" => x |= &y,
+                    _ => x ^= &y,
+                }
+                if let Some(k) = keep {
+                    // the clone must be unaffected
+                    assert_eq!(bb_bits(&k), show_bits(&bits_of(&l, lo, len)));
+                }
+                assert_eq!(x.len(), len);
+                bb_bits(&x)
+            })
+        }
+        "unionmany" => {
+            // C19 unionmany <len> <b1>:<o1>;<b2>:<o2>;…
+            let len = us(t[2]);
+            let parts: Vec<(Vec<u8>, usize)> = t[3].split(';').map(|p| {
+                let f: Vec<&str> = p.split(':').collect();
+                (unhex(f[0]), us(f[1]))
+            }).collect();
+            guarded(move || {
+                let masks: Vec<NullBuffer> = parts.iter().map(|(b, o)| NullBuffer::new(bb(b, *o, len, o % 8))).collect();
+                match NullBuffer::union_many(masks.iter().map(Some)) {
+                    Some(u) => format!("{} {}", bb_bits(u.inner()), u.null_count()),
+                    None => format!("{} 0", show_bits(&vec![true; len])),
+                }
+            })
+        }
+        "contains" => {
+            let (l, lo, r, ro, len) = (unhex(t[2]), us(t[3]), unhex(t[4]), us(t[5]), us(t[6]));
+            guarded(move || {
+                let x = NullBuffer::new(bb(&l, lo, len, 0));
+                let y = NullBuffer::new(bb(&r, ro, len, 3));
+                (x.contains(&y) as u8).to_string()
+            })
+        }
         "nullunion" => {
             // C19 nullunion <l> <lo> <r> <ro> <len> → bits + null count
             let (l, lo, r, ro, len) = (unhex(t[2]), us(t[3]), unhex(t[4]), us(t[5]), us(t[6]));
@@ -533,7 +579,42 @@ fn gen_case(rng: &mut Rng) -> (String, String) {
             let s = if ops.is_empty() { "-".to_string() } else { ops.join(";") };
             (format!("C19 builder {}", s), format!("op:builder {}", if ops.len() > 2 { "nt" } else { "" }))
         }
-        _ => match rng.below(3) {
+        _ => match rng.below(7) {
+            3 | 4 => {
+                let (l, lo, len) = gen_range(rng, None);
+                let (r, ro, _) = gen_range(rng, Some(len));
+                let op = *rng.pick(&["and", "or", "xor"]);
+                let uniq = rng.chance(2, 3);
+                (
+                    format!("C19 assign {} {} {} {} {} {} {}", op, uniq as u8, hex(&l), lo, hex(&r), ro, len),
+                    format!("op:assign:{} {} {}", op, if uniq { "inplace" } else { "shared" }, nontrivial(lo.max(ro) + (lo != ro) as usize, len)),
+                )
+            }
+            5 => {
+                let len = if rng.chance(1, 4) { 200 + rng.usize(300) } else { rng.usize(140) };
+                let k = 1 + rng.usize(5);
+                let parts: Vec<String> = (0..k).map(|_| {
+                    let (b, o, _) = gen_range(rng, Some(len));
+                    format!("{}:{}", hex(&b), o)
+                }).collect();
+                (format!("C19 unionmany {} {}", len, parts.join(";")), format!("op:unionmany k:{} {}", k, if k >= 3 && len > 0 { "nt" } else { "" }))
+            }
+            6 => {
+                let (l, lo, len) = gen_range(rng, None);
+                let (mut r, ro, _) = gen_range(rng, Some(len));
+                if rng.chance(2, 3) {
+                    // make `r` a superset of `l` (contains = true), maybe clear one bit
+                    for i in 0..len {
+                        let b = (l[(lo + i) / 8] >> ((lo + i) % 8)) & 1;
+                        if b == 1 { r[(ro + i) / 8] |= 1 << ((ro + i) % 8); }
+                    }
+                    if len > 0 && rng.bool() {
+                        let i = ro + rng.usize(len);
+                        r[i / 8] &= !(1 << (i % 8));
+                    }
+                }
+                (format!("C19 contains {} {} {} {} {}", hex(&l), lo, hex(&r), ro, len), format!("op:contains {}", nontrivial(lo.max(ro), len)))
+            }
             0 => {
                 let (l, lo, len) = gen_range(rng, None);
                 let (r, ro, _) = gen_range(rng, Some(len));
